@@ -10,7 +10,9 @@ CONSTANTS Sessions, MaxCh, MaxSteps
 \* alice's name in another letter case / with a blank appended (NTLMv2 hashes the upper-cased name, so a proof made with
 \* alice's password is cryptographically fine for them - but the named user has no configured password)
 \* bob is a second configured user with his own password
-Users == {"alice", "bob", "ghost", "empty", "ALICE", "alice_"}
+\* off is in the user file twice: first with a password, then - the entry that counts - with "" (switched off); what a
+\* client proves for off is the password of the replaced entry
+Users == {"alice", "bob", "ghost", "empty", "ALICE", "alice_", "off"}
 HasPassword(u) == u \in {"alice", "bob"}
 \* "right": proof of the named user's configured password; "wrong": a wrong password; "asbob": the message names the user
 \* but its proof was computed from bob's name and password (a proof of somebody else's password is no proof)
